@@ -691,6 +691,39 @@ def numeric_args_family(repo):
     return out
 
 
+def misplaced_calls_family():
+    """super() / self.x() / loop() / caller() / varargs at the top level, in macros, blocks, loops, call blocks and set
+    statements of INCLUDED, IMPORTED and EXTENDED templates, used from the top level / a block / an overriding block of a
+    child / a macro / a loop / a call block / a set block of the including template: every combination of where the use
+    sits x where the special call sits; an error or output is fine, a panic is not"""
+    calls = ["super()", "self.body()", "self.nosuch()", "self.other()", "loop(1)", "loop.index", "caller()", "caller(1)", "varargs", "self", "super", "loop"]
+    places = {"top": "T:{{ C }}", "set": "{% set z = C %}{{ z }}", "macro": "{% macro m() %}m:{{ C }}{% endmacro %}{{ m() }}", "block": "{% block other %}o:{{ C }}{% endblock %}",
+              "sameblock": "{% block body %}b:{{ C }}{% endblock %}", "loop": "{% for q in [1] %}{{ C }}{% endfor %}", "callblock": "{% macro cm() %}{{ caller() }}{% endmacro %}{% call cm() %}{{ C }}{% endcall %}",
+              "if": "{% if true %}{{ C }}{% endif %}{% filter upper %}{{ C }}{% endfilter %}", "macroarg": "{% macro m(a=C) %}{{ a }}{% endmacro %}{{ m() }}{{ m(C) }}"}
+    uses = {"include": "{% include 'tgt' %}", "includelist": "{% include ['nope', 'tgt'] ignore missing %}", "import": "{% import 'tgt' as t %}{{ t.m() }}{{ t }}", "from": "{% from 'tgt' import m %}{{ m() }}",
+            "importcall": "{% import 'tgt' as t %}{% call t.m() %}x{% endcall %}"}
+    sites = {"top": "USE", "block": "{% block body %}[USE]{% endblock %}", "override": "{% extends 'base' %}{% block body %}{{ super() }}[USE]{% endblock %}",
+             "override2": "{% extends 'mid' %}{% block body %}{{ super() }}[USE]{% endblock %}", "macro": "{% macro w() %}USE{% endmacro %}{{ w() }}", "loop": "{% for i in [1, 2] %}USE{% endfor %}",
+             "recloop": "{% for i in [[1]] recursive %}USE{% endfor %}", "callblock": "{% macro c() %}{{ caller() }}{% endmacro %}{% call c() %}USE{% endcall %}", "setblock": "{% set s %}USE{% endset %}{{ s }}",
+             "blockinloop": "{% for i in [1] %}{% block body %}USE{% endblock %}{% endfor %}", "setsuper": "{% block body %}{% set x %}USE{% endset %}{{ x }}{% endblock %}",
+             "blockmacro": "{% block body %}{% macro w() %}USE{% endmacro %}{{ w() }}{% endblock %}"}
+    out = []
+    base = {"base": "<{% block body %}base{% endblock %}{% block other %}bo{% endblock %}>", "mid": "{% extends 'base' %}{% block body %}mid{{ super() }}{% endblock %}"}
+    for c in calls:
+        for pn, pl in places.items():
+            tgt = pl.replace("C", c)
+            tpls = dict(base)
+            tpls["tgt"] = tgt
+            for un, u in uses.items():
+                for sn, st in sites.items():
+                    out.append((st.replace("USE", u), {"templates": tpls}))
+            # the target as a parent, as a child of base, and as a parent whose child includes it again
+            out.append(("{% extends 'tgt' %}{% block body %}c{{ super() }}{% endblock %}{% block other %}d{{ super() }}{% endblock %}", {"templates": tpls}))
+            out.append(("{% include 'child' %}", {"templates": dict(tpls, child="{% extends 'base' %}{% block body %}" + tgt.replace("{% block body %}", "{% block inner %}") + "{% endblock %}")}))
+            out.append(("{% extends 'tgt' %}{% block body %}{% include 'tgt' %}{% endblock %}", {"templates": tpls}))
+    return out
+
+
 def mutated_fixtures(repo, rng, n):
     srcs = []
     for f in sorted(glob.glob(os.path.join(repo, "minijinja/tests/inputs/*.txt")) + glob.glob(os.path.join(repo, "minijinja/tests/parser-inputs/*.txt"))
@@ -991,7 +1024,7 @@ def main():
                   ("pipelines", pipeline_templates(REPO, chk.rng, 1200000 if chk.thorough else 12000)),
                   ("mutated", mutated_fixtures(REPO, chk.rng, 400000 if chk.thorough else 4000)),
                   ("slices", slice_family(chk.thorough)), ("lexer", lexer_family(chk.thorough)), ("arith", arith_family()), ("oddvalues", odd_values_family(REPO)),
-                  ("multi", multi_template_family()),
+                  ("multi", multi_template_family()), ("misplaced", misplaced_calls_family()),
                   ("loopcontrols", loop_control_family()), ("escaped", escaped_objects_family())]
         # nothing legitimate in these families needs gigabytes or seconds: a tight address-space limit and a short watchdog turn
         # what would be minutes of filling memory / pretty-printing an endless value on a tree without the bounds (14 shards
@@ -1057,7 +1090,7 @@ def main():
         alt_passes = []
     elif quick:
         full_cyclic = [("cyclic", cyclic_family(REPO))]
-        pick = [(g, es) for g, es in groups if g in ("oddvalues", "escaped", "formattext", "multi", "numericargs")]
+        pick = [(g, es) for g, es in groups if g in ("oddvalues", "escaped", "formattext", "multi", "misplaced", "numericargs")]
         # the optional minijinja-contrib features only exist in this build: their width / count / range boundaries
         nums = ["0", "1", "-1", "100000", "1000001", "253402207200", "253402300800", "1000000000000", "-1000000000000", "9223372036854775807", "-9223372036854775808", "18446744073709551615", "1e308", "-1e308"]
         contrib_group = []
